@@ -153,10 +153,15 @@ class TGen:
 
         def cost(sig):
             return sum(1 for a, q in zip(ats, sig) if a != q) if len(sig) == len(ats) else None
-        others = [cost(f[1]) for f in self.funcs if f[0] == name and f[1] != params]
+        # every declared signature counts for ambiguity, including the function whose body is being generated (not yet callable)
+        others = [cost(sig) for (n2, sig) in getattr(self, 'sigs', []) + [(f[0], f[1]) for f in self.funcs] if n2 == name and sig != params]
         if any(c is not None and c <= cost(params) for c in others):
             ats = list(params)          # keep the resolution unambiguous: exact match
         args = [self.expr(env, at, min(depth, 1), pure=True) for at in ats]
+        if (name, tuple(params)) in getattr(self, 'recursive_sigs', set()):
+            # the recursion counter of a recursive function: a small constant, so that run time stays bounded whatever
+            # the globals hold (a deep, slow but terminating recursion is indistinguishable from a hang within the time limit)
+            args[0] = I(self.rng.randrange(0, 5))
         return Call(name, args)
 
     # ---------------------------------------------------------------- statements
@@ -251,6 +256,8 @@ class TGen:
         env.bounds = {}
         for t, n in params:
             env.vars[n] = t
+        if recursive:
+            env.readonly.add(params[0][1])      # the recursion counter: statements before the call must not reset it
         body = []
         stmts = []
         for _ in range(self.rng.choice([1, 2, 3, 4])):
@@ -287,6 +294,8 @@ class TGen:
         r = self.rng
         self.counter = 0
         self.funcs, self.structs = [], {}
+        self.sigs = []
+        self.recursive_sigs = set()
         items = []
         genv = Env()
         types = [INT, FLOAT] if self.o["floats"] else [INT]
@@ -305,16 +314,24 @@ class TGen:
                     genv.vars["g%d" % k] = t; items.append(Global(t, "g%d" % k)); globs.append(("g%d" % k, t, None))
         helpers = []
         if self.o["calls"]:
+            # all signatures are fixed first (a later overload must not make an earlier call ambiguous); bodies are generated
+            # afterwards and may only call functions generated before them
+            planned = []
             for k in range(r.choice([0, 1, 2, 3])):
                 nparams = r.choice([1, 1, 2])
                 ret = r.choice(types)
                 name = r.choice(["h", "h", "k"])      # repeated names give overload sets
                 pts = [r.choice(types) for _ in range(nparams)]
-                if any(f[0] == name and f[1] == pts for f in self.funcs):
+                if any(f[0] == name and f[1] == pts for f in planned):
                     continue
-                if any(f[0] == name and len(f[1]) == len(pts) for f in self.funcs) and INT in pts and FLOAT in pts:
+                if any(f[0] == name and len(f[1]) == len(pts) for f in planned) and INT in pts and FLOAT in pts:
                     continue    # keep overload sets unambiguous for int->float argument conversion
                 recursive = pts[0] == INT and r.random() < 0.3
+                planned.append((name, pts, ret, recursive))
+                if recursive:
+                    self.recursive_sigs.add((name, tuple(pts)))
+                self.sigs.append((name, pts))
+            for name, pts, ret, recursive in planned:
                 fn = self.function(name, [(t, "p%d" % j) for j, t in enumerate(pts)], ret, genv, False, recursive)
                 self.funcs.append((name, pts, ret))
                 helpers.append(fn)
